@@ -7,9 +7,11 @@
    Time is integer milliseconds, hb the heartbeat interval in seconds (any integer >= 1 unless
    stated).  `ticks p k` are k watchdog iterations one sleep period (1000 ms) apart starting at
    p: the phase p is arbitrary.  `trace s evs` is the run of a time-ordered scenario
-   (Tick | Recv valid message | application send_test_req() | application send_msg(TestRequest));
+   (Tick | Recv t d m: valid message numbered next_num_in + d, d = 0 in sequence, d > 0 behind a gap |
+   application send_test_req() | application send_msg(TestRequest));
    `outs` its per-event outputs, `final` its last state.
-   `idle_at s hb t0`: connected, ACTIVE, no TestRequest outstanding, last valid message at t0. *)
+   `idle_at s hb t0`: connected, ACTIVE, no TestRequest outstanding, last in-sequence message at t0.
+   `live s`: connected and ACTIVE; `awaiting s`: connected and RESENDREQ_AWAITING (a ResendRequest is out). *)
 From Coq Require Import ZArith NArith List Bool.
 From AF Require Import Base.Sx Py.Str Fix.Timer Lemmas.TimerL.
 From AFGen Require Import GenTimer.
@@ -53,18 +55,95 @@ Theorem C12_dead_peer : forall hb s t0 p (k m : nat),
 Proof. exact dead_peer_run. Qed.
 Print Assumptions C12_dead_peer.
 
-(* A live peer is never dropped by the watchdog, for every scenario (any phase, any arrival pattern,
-   application-initiated probes included), if EITHER valid traffic never pauses longer than hb - 1 s
-   before an iteration (`fed`: then no TestRequest is ever needed) OR every TestRequest written at
-   time t (id t/1000) is answered later in the run by a Heartbeat echoing the id that arrives no
-   later than id + 2 hb s (`answers`).  This is the part of the literal property that holds:
-   its hypotheses are the negation of the known-finding class of C12_unanswered_probe_refuted. *)
+(* A live peer is never dropped by the watchdog, for every scenario whose inbound traffic is in sequence (any
+   phase, any arrival pattern, application-initiated probes included), if EITHER valid traffic never pauses longer
+   than hb - 1 s before an iteration (`fed`: then no TestRequest is ever needed) OR every TestRequest written at
+   time t (id t/1000) is answered later in the run by a Heartbeat echoing the id that arrives no later than
+   id + 2 hb s (`answers`).  This is the part of the literal property that holds: its hypotheses are the negation
+   of the known-finding class of C12_unanswered_probe_refuted. *)
 Theorem C12_live_peer : forall hb evs s t0,
   1 <= hb -> idle_at s hb t0 -> Forall (fun e => 1000 <= ev_time e) evs ->
-  (fed ((hb - 1) * 1000) t0 evs \/ (sorted evs /\ answers hb (trace s evs))) ->
+  (fed ((hb - 1) * 1000) t0 evs \/ (sorted evs /\ Forall inseq_ev evs /\ answers hb (trace s evs))) ->
   Forall (fun r => ~ wd_disconnect r) (trace s evs).
 Proof. exact live_peer. Qed.
 Print Assumptions C12_live_peer.
+
+(* The same with out-of-sequence traffic (messages behind a gap, gap fills): an answer counts wherever it is
+   numbered (`is_answer` asks only 0 <= d), provided no iteration that runs while a resend is awaited finds the
+   last in-sequence message more than 2 hb s old (`gap_ok`: the negation of the class of C12_unfilled_gap_refuted). *)
+Theorem C12_live_peer_gaps : forall hb evs s,
+  1 <= hb -> ok hb s -> s_id s = None -> sorted evs -> Forall (fun e => 1000 <= ev_time e) evs ->
+  gap_ok hb s evs -> answers hb (trace s evs) ->
+  Forall (fun r => ~ wd_disconnect r) (trace s evs).
+Proof. exact live_peer_gaps. Qed.
+Print Assumptions C12_live_peer_gaps.
+
+(* A Heartbeat echoing the outstanding TestReqID that arrives BEHIND A SEQUENCE GAP (numbered above the expected
+   number) clears the outstanding probe: from ACTIVE it also sends the ResendRequest and enters RESENDREQ_AWAITING,
+   while a resend is already awaited it does nothing else.  The last-message clock is not refreshed. *)
+Theorem C12_answer_behind_gap_counts : forall now d v s, 0 < d -> s_id s = Some (parse_id v) ->
+  (live s -> recv now d (MHeartbeat (Some v)) s
+             = (set_id (set_state s ST_RESENDREQ_AWAITING d) None, [OWire KResendRequest None]))
+  /\ (awaiting s -> recv now d (MHeartbeat (Some v)) s = (set_id s None, [])).
+Proof. exact answer_behind_gap_counts. Qed.
+Print Assumptions C12_answer_behind_gap_counts.
+
+(* an inbound TestRequest behind a gap is still answered with the same TestReqID *)
+Theorem C12_testreq_behind_gap_answered : forall now d rid s, 0 < d ->
+  let hbt := OWire KHeartbeat (Some (match rid with Some v => v | None => [48%N] end)) in
+  (live s -> recv now d (MTestRequest rid) s
+             = (set_state s ST_RESENDREQ_AWAITING d, [OWire KResendRequest None; hbt]))
+  /\ (awaiting s -> recv now d (MTestRequest rid) s = (s, [hbt])).
+Proof. exact testreq_behind_gap_answered. Qed.
+Print Assumptions C12_testreq_behind_gap_answered.
+
+(* ... and a wrong TestReqID behind a gap still ends the session with a Logout *)
+Theorem C12_wrong_id_behind_gap_logout : forall now d v s n, 0 < d -> s_id s = Some n -> parse_id v <> n ->
+  (live s -> recv now d (MHeartbeat (Some v)) s
+             = (dead_st (s_hb s), [OWire KResendRequest None; OWire KLogout None; ODisconnect]))
+  /\ (awaiting s -> recv now d (MHeartbeat (Some v)) s = (dead_st (s_hb s), [OWire KLogout None; ODisconnect])).
+Proof. exact wrong_id_behind_gap_logout. Qed.
+Print Assumptions C12_wrong_id_behind_gap_logout.
+
+(* closing the gap: a SequenceReset in sequence whose NewSeqNo passes the number that opened the gap (nw - 1 >= gap)
+   returns the session to ACTIVE and refreshes the clock; a shorter one only shrinks the gap *)
+Theorem C12_gap_fill_closes : forall now nw s, awaiting s -> 1 <= nw ->
+  recv now 0 (MGapFill nw) s =
+  ((if s_gap s <=? nw - 1 then set_mlt (set_state s ST_ACTIVE 0) now
+    else set_mlt (set_state s ST_RESENDREQ_AWAITING (s_gap s - nw)) now), []).
+Proof. exact gap_fill_closes. Qed.
+Print Assumptions C12_gap_fill_closes.
+
+(* The silence clock while a resend is awaited.  Traffic that is all behind the unfilled gap does not refresh it,
+   the watchdog writes no TestRequest (its probe test applies to ACTIVE only) and nothing at all happens as long
+   as the clock t0 (last in-sequence message) is at most 2 hb s old ... *)
+Theorem C12_behind_gap_silence : forall hb t0 evs s,
+  awaiting s -> s_hb s = hb -> s_id s = None -> s_mlt s = t0 ->
+  Forall (behind_gap_ev hb t0) evs ->
+  final s evs = s
+  /\ Forall (fun r => writes_testreq r = false /\ ~ In ODisconnect (r_out r)
+                      /\ (is_tick (r_ev r) = true -> r_out r = [])) (trace s evs).
+Proof. exact behind_gap_quiet. Qed.
+Print Assumptions C12_behind_gap_silence.
+
+(* ... and the first iteration later than t0 + 2 hb s drops the peer, unprobed *)
+Theorem C12_gap_timeout : forall now s,
+  awaiting s -> s_id s = None -> s_mlt s <> 0 -> 2 * s_hb s * 1000 < now - s_mlt s ->
+  tick now s = (dead_st (s_hb s), [ODisconnect]).
+Proof. exact gap_timeout. Qed.
+Print Assumptions C12_gap_timeout.
+
+(* REFUTED: "a peer whose traffic is all behind an unfilled gap is probed and, if it answers, not dropped".
+   hb = 30, Heartbeats every 10 s, every one numbered above the expected number: no TestRequest is ever written
+   (`answers` holds vacuously) and the watchdog drops the peer at +60.25 s. *)
+Theorem C12_unfilled_gap_refuted :
+  exists evs,
+    sorted evs /\ forallb behind_gapb evs = true /\ gap_le 10000 1000000000 evs = true
+    /\ answers 30 (trace (active0 30 1000000000) evs)
+    /\ forallb (fun r => negb (writes_testreq r)) (trace (active0 30 1000000000) evs) = true
+    /\ exists r, In r (trace (active0 30 1000000000) evs) /\ wd_disconnect r.
+Proof. exact unfilled_gap_refuted. Qed.
+Print Assumptions C12_unfilled_gap_refuted.
 
 (* ... in particular an answer within 2 hb - 1 s of the moment the probe was written is in time *)
 Theorem C12_answer_deadline : forall hb t ta,
@@ -100,14 +179,14 @@ Print Assumptions C12_unanswered_probe_hb1_refuted.
 
 (* At most one TestRequest outstanding: in every scenario without application calls of
    send_msg(TestRequest) (any state, any hb, any times >= 1 s), between two steps that write a
-   TestRequest there is a received Heartbeat echoing the id int(t_i) of the first one. *)
+   TestRequest there is a received Heartbeat (in sequence or behind a gap) echoing the id int(t_i) of the first one. *)
 Theorem C12_single_outstanding : forall evs s i k ri rk,
   s_id s <> Some 0 -> no_raw evs -> Forall (fun e => 1000 <= ev_time e) evs ->
   (i < k)%nat ->
   nth_error (trace s evs) i = Some ri -> nth_error (trace s evs) k = Some rk ->
   writes_testreq ri = true -> writes_testreq rk = true ->
-  exists j rj ta v, (i < j < k)%nat /\ nth_error (trace s evs) j = Some rj
-                    /\ r_ev rj = Recv ta (MHeartbeat (Some v))
+  exists j rj ta da v, (i < j < k)%nat /\ nth_error (trace s evs) j = Some rj
+                    /\ r_ev rj = Recv ta da (MHeartbeat (Some v))
                     /\ parse_id v = ev_time (r_ev ri) / 1000.
 Proof. exact single_outstanding. Qed.
 Print Assumptions C12_single_outstanding.
@@ -126,25 +205,25 @@ Print Assumptions C12_raw_testrequest_refuted.
 
 (* every inbound TestRequest is answered by one Heartbeat carrying the same TestReqID, "0" when absent *)
 Theorem C12_testreq_answered : forall now rid s, live s ->
-  recv now (MTestRequest rid) s =
+  recv now 0 (MTestRequest rid) s =
   (set_mlt s now, [OWire KHeartbeat (Some (match rid with Some v => v | None => [48%N] end))]).
 Proof. exact testreq_answered. Qed.
 Print Assumptions C12_testreq_answered.
 
 (* a Heartbeat whose TestReqID (int(), non-numeric read as 0) differs from the outstanding one: Logout + disconnect *)
 Theorem C12_wrong_id_logout : forall now v s n, live s -> s_id s = Some n -> parse_id v <> n ->
-  recv now (MHeartbeat (Some v)) s =
+  recv now 0 (MHeartbeat (Some v)) s =
   (set_mlt (dead_st (s_hb s)) now, [OWire KLogout None; ODisconnect]).
 Proof. exact wrong_id_logout. Qed.
 Print Assumptions C12_wrong_id_logout.
 
 Theorem C12_matching_id_clears : forall now v s, live s -> s_id s = Some (parse_id v) ->
-  recv now (MHeartbeat (Some v)) s = (set_mlt (set_id s None) now, []).
+  recv now 0 (MHeartbeat (Some v)) s = (set_mlt (set_id s None) now, []).
 Proof. exact matching_id_clears. Qed.
 Print Assumptions C12_matching_id_clears.
 
 Theorem C12_heartbeat_without_id_ignored : forall now s, live s ->
-  recv now (MHeartbeat None) s = (set_mlt s now, []).
+  recv now 0 (MHeartbeat None) s = (set_mlt s now, []).
 Proof. exact heartbeat_without_id_ignored. Qed.
 Print Assumptions C12_heartbeat_without_id_ignored.
 
@@ -184,6 +263,14 @@ Example C12_live_peer_nonvacuous :
   /\ Forall (fun r => ~ wd_disconnect r) (trace (active0 30 1000000000) answering_evs).
 Proof. exact live_peer_nonvacuous. Qed.
 Print Assumptions C12_live_peer_nonvacuous.
+
+Example C12_answer_behind_gap_instance :
+  sorted gap_answer_evs /\ gap_ok 30 (active0 30 1000000000) gap_answer_evs
+  /\ answers 30 (trace (active0 30 1000000000) gap_answer_evs)
+  /\ (2 <= length (filter writes_testreq (trace (active0 30 1000000000) gap_answer_evs)))%nat
+  /\ Forall (fun r => ~ wd_disconnect r) (trace (active0 30 1000000000) gap_answer_evs).
+Proof. exact answer_behind_gap_instance. Qed.
+Print Assumptions C12_answer_behind_gap_instance.
 
 Example C12_traffic_instance :
   let evs := merge (ticks 1000000250 12) (app_msgs 1000004000 4000 3) in
